@@ -142,6 +142,9 @@ def _case(draw):
         "rate_mod": draw(st.sampled_from([{}, {}, {"1": "0.0"}, {"2": "1.0e-9 * nH"}])),
         "ode_mod": draw(st.sampled_from(om_choices)),
     }
+    if grain in ("rr07", "rr07x") and draw(st.integers(0, 2)) == 0:
+        # the dust itself is tracked as a species (extra species of the project) although the model takes its density as a parameter
+        case["required"] = draw(st.sampled_from([["GRAIN0"], ["GRAIN0", "GRAIN0-"]]))
     return case
 
 
@@ -191,6 +194,8 @@ def build_net(case, d):
     kw = {}
     if any(f["fmt"] == "leeds" for f in case["files"]) and all(f["fmt"] == "leeds" for f in case["files"]):
         kw["species_kwargs"] = {"surface_prefix": "G"}
+    if case.get("required"):
+        kw["required_species"] = list(case["required"])
     return Network(filelist=paths, fileformats=fmts, grain_model=case["grain_model"], cooling=list(case["cooling"]), shielding=dict(case["shielding"]),
                    rate_modifier={int(k): v for k, v in case["rate_mod"].items()}, ode_modifier=omod, **kw)
 
@@ -207,6 +212,8 @@ def check_case(case, tier):
         labels.append("cooling")
     if case["rate_mod"] or case["ode_mod"]:
         labels.append("modifiers")
+    if case.get("required"):
+        labels.append("tracked-grain-species")
     nontrivial = bool(case["grain_model"] or case["shielding"] or case["cooling"] or case["rate_mod"] or case["ode_mod"])
     # precondition: modifiers / cooling must refer to species of the network; H2 in uclchem networks
     species = {s for f in case["files"] if f["fmt"] != "krome" for lr in f["lines"] for s in lr["r"] + lr["p"]}
